@@ -1,14 +1,40 @@
-// Witness probe for C18: Chebyshev constructor degree.
+// Witness probe for C18: degree of every constructor, and every coefficient against the classical closed forms
+// (integer recurrences / binomial sums evaluated exactly in i128) up to rounding.
 use bacon_sci::special::{chebyshev, chebyshev_second, legendre, hermite, laguerre};
+fn binom(n: i128, k: i128) -> i128 { let mut r: i128 = 1; for i in 0..k { r = r * (n - i) / (i + 1); } r }
+// integer three-term recurrences  p_{k+1} = a x p_k - b(k) p_{k-1}
+fn rec(n: usize, p0: Vec<i128>, p1: Vec<i128>, a: i128, b: &dyn Fn(i128) -> i128) -> Vec<i128> {
+    if n == 0 { return p0; }
+    let (mut prev, mut cur) = (p0, p1);
+    for k in 1..n {
+        let mut next = vec![0i128; k + 2];
+        for (i, c) in cur.iter().enumerate() { next[i + 1] += a * c; }
+        for (i, c) in prev.iter().enumerate() { next[i] -= b(k as i128) * c; }
+        prev = cur; cur = next;
+    }
+    cur
+}
 fn main() {
     let mut found = Vec::new();
     for n in 0u32..=20 {
+        let nn = n as usize;
+        let cheb: Vec<f64> = rec(nn, vec![1], vec![0, 1], 2, &|_| 1).iter().map(|&c| c as f64).collect();
+        let cheb2: Vec<f64> = rec(nn, vec![1], vec![0, 2], 2, &|_| 1).iter().map(|&c| c as f64).collect();
+        let herm: Vec<f64> = rec(nn, vec![1], vec![0, 2], 2, &|k| 2 * k).iter().map(|&c| c as f64).collect();
+        // P_n = 2^-n sum_k (-1)^k C(n,k) C(2n-2k,n) x^(n-2k);   L_n = sum_k (-1)^k C(n,k)/k! x^k
+        let mut leg = vec![0.0f64; nn + 1];
+        for k in 0..=nn / 2 { let c = binom(n as i128, k as i128) * binom(2 * (n as i128) - 2 * k as i128, n as i128); leg[nn - 2 * k] = (if k % 2 == 0 { 1.0 } else { -1.0 }) * c as f64 / 2f64.powi(n as i32); }
+        let mut lag = vec![0.0f64; nn + 1];
+        let mut fact: f64 = 1.0;
+        for k in 0..=nn { if k > 0 { fact *= k as f64; } lag[k] = (if k % 2 == 0 { 1.0 } else { -1.0 }) * binom(n as i128, k as i128) as f64 / fact; }
         for tol in [1e-14, 1e-12, 1e-10, 1e-8, 1e-6] {
-            let p = chebyshev::<f64>(n, tol).unwrap();
-            if p.order() != n as usize { found.push(format!("chebyshev({n}, {tol:e}) has degree {}", p.order())); }
-            for (name, q) in [("chebyshev_second", chebyshev_second::<f64>(n, tol).unwrap()), ("legendre", legendre::<f64>(n, tol).unwrap()),
-                              ("hermite", hermite::<f64>(n, tol).unwrap()), ("laguerre", laguerre::<f64>(n, tol).unwrap())] {
-                if q.order() != n as usize { found.push(format!("{name}({n}, {tol:e}) has degree {}", q.order())); }
+            for (name, q, exact) in [("chebyshev", chebyshev::<f64>(n, tol).unwrap(), &cheb), ("chebyshev_second", chebyshev_second::<f64>(n, tol).unwrap(), &cheb2),
+                                     ("legendre", legendre::<f64>(n, tol).unwrap(), &leg), ("hermite", hermite::<f64>(n, tol).unwrap(), &herm), ("laguerre", laguerre::<f64>(n, tol).unwrap(), &lag)] {
+                if q.order() != nn { found.push(format!("{name}({n}, {tol:e}) has degree {}", q.order())); continue; }
+                for (k, &e) in exact.iter().enumerate() {
+                    let c = q.get_coefficient(k);
+                    if (c - e).abs() > 1e-11 * e.abs() + tol { found.push(format!("{name}({n}, {tol:e}): coefficient of x^{k} is {c:e}, closed form {e:e}")); break; }
+                }
             }
         }
     }
